@@ -242,7 +242,10 @@ def handler_sibling_agreement(ctx: Ctx) -> None:
         ctx.ob(f"{k}: START_NS registers (recorder, prefix or None, uri)", okr, at=fi, construct=f"{k} register", msg="namespace registration differs")
         # the empty prefix is normalised to None in both: the registered prefix argument is `<prefix> or None` in one of its expansion forms
         pf = _arg_forms(fi, g, reg[0])[1] if okr else set()
-        ctx.ob(f"{k}: the empty prefix is normalised to None", any(x.endswith("orNone") for x in pf), at=fi, construct=f"{k} prefix none", msg="default namespace prefix '' vs None")
+        # ... or, written as a branch, None is one of the values that can flow into the argument (chosen when the raw prefix is falsy)
+        pl = leaves_at(fi, reg[0], reg[0].args[1]) if okr else []
+        ctx.ob(f"{k}: the empty prefix is normalised to None", any(x.endswith("orNone") for x in pf) or (len(pl) > 1 and any(isinstance(x, ast.Constant) and x.value is None for x in pl)), at=fi,
+               construct=f"{k} prefix none", msg="default namespace prefix '' vs None")
     # in-scope map per element: lxml takes element.nsmap, native merges the parent's map with the element's own declarations
     ctx.ob("lxml START passes element.nsmap as the in-scope map", "_.nsmap" in start_last.get("lxml", set()), at=lx, construct="lxml in-scope map", msg="in-scope map argument changed")
     ctx.ob("native START passes merge_parent_namespaces(own declarations) as the in-scope map", "self.merge_parent_namespaces(_)" in start_last.get("native", set()), at=nat,
